@@ -68,10 +68,10 @@ func ruleR19a(h *H) {
 			if !ok || !isSetMethod(call.Common(), "Size") {
 				return false
 			}
-			return ir.DependsOn(c.R, func(x ssa.Value) bool {
-				r, ok := ir.FieldLoadOf(x)
-				return ok && r.Field == "Replicas"
-			})
+			// the size is compared with the requested replication factor itself, not with a value
+			// merely derived from it (min(Replicas, candidates) would let a short ensemble pass)
+			r, ok := ir.FieldLoadOf(stripConv(ir.Canon(c.R)))
+			return ok && r.Field == "Replicas"
 		})
 		i := 0
 		ir.Instrs(fn, func(in ssa.Instruction) {
